@@ -121,7 +121,7 @@ package sflow
 //@   ensures [trusted.def] err == nil ==> result == flowSampleU(r.D, old(r.Pos)) && r.Pos == flowEndU(r.D, old(r.Pos))
 //@   ensures [hdr] err == nil ==> fsHdrAt(result, r.D, old(r.Pos))
 //@   modifies r.Pos
-//@   loop 1 @ for i < fs.RecordsNo
+//@   loop 1 @ for i < fs.RecordsNo #8cb81827
 //@     invariant strm(r) && r.D == old(r.D) && fs != nil && !fs.Records.isnil && r.Pos >= old(r.Pos) + 32 + 8*i
 //@     invariant 0 <= i && i <= fs.RecordsNo
 //@     invariant fsHdrAt(fs, r.D, old(r.Pos))
@@ -167,7 +167,7 @@ package sflow
 //@   ensures [trusted.def] err == nil ==> result == counterSampleU(r.D, old(r.Pos)) && r.Pos == counterEndU(r.D, old(r.Pos))
 //@   ensures [hdr] err == nil ==> csHdrAt(result, r.D, old(r.Pos))
 //@   modifies r.Pos
-//@   loop 1 @ for i < cs.RecordsNo
+//@   loop 1 @ for i < cs.RecordsNo #ea33c4ac
 //@     invariant strm(r) && r.D == old(r.D) && cs != nil && !cs.Records.isnil && r.Pos >= old(r.Pos) + 12 + 8*i
 //@     invariant 0 <= i && i <= cs.RecordsNo
 //@     invariant csHdrAt(cs, r.D, old(r.Pos))
@@ -345,7 +345,7 @@ package sflow
 //@ func (*SFDecoder).isFilterMatch
 //@   names d f _ _ v
 //@   ensures result <==> (exists k :: 0 <= k && k < len(d.filter) && d.filter[k] == f)
-//@   loop 1 @ range d.filter
+//@   loop 1 @ range d.filter #9b51d65e
 //@     invariant forall k :: 0 <= k && k < range_i ==> d.filter[k] != f
 
 // datagram: header, then SamplesNo samples, each an 8-octet (type, length) header followed by the body. A sample
@@ -366,7 +366,7 @@ package sflow
 //@   ensures [bounded] result != nil ==> 8*(len(result.Samples) + len(result.Counters)) <= len(d.reader.D)
 //@   ensures [hdr] err == nil ==> sfHdrAt(result, d.reader.D)
 //@   modifies d.reader.Pos
-//@   loop 1 @ for i < datagram.SamplesNo
+//@   loop 1 @ for i < datagram.SamplesNo #5e8a872b
 //@     invariant strm(d.reader) && d.reader.D == old(d.reader.D) && d.filter == old(d.filter) && datagram != nil
 //@     invariant sfHdrAt(datagram, d.reader.D)
 //@     invariant 0 <= i && i <= datagram.SamplesNo && len(datagram.Samples) + len(datagram.Counters) <= i
